@@ -46,6 +46,12 @@ CHECKS = {
  "C12": dict(level=EX, design="§4 C12", technique="bounded-exhaustive enumeration of accepted programs; independent type checkers for Core and AxCut on every stage output; panics caught per stage",
     text="Every program of the Fun families passes through all stages and the three code generators under catch_unwind; TC-CORE/TC-AX check each intermediate program with the judgments of the property. The RV64 print panic is a recorded known finding.",
     note="checkers use only the annotations the programs carry and the declared signatures"),
+ "C14": dict(level=EX, design="§4 C14", technique="bounded-exhaustive enumeration of emitted assembly files; static lint of every label/operand/table per instruction form, GNU as acceptance and object-code read-back for x86-64, symbol-injection closure over generated names",
+    text="Every file emitted for the AxCut and Fun families on the three backends is linted for label definedness/uniqueness, runtime-symbol clashes, operand ranges of the printed instruction forms and jump-table entry form; x86-64 files are assembled by GNU as and their tables read back from the object code; for each generated definition symbol the variant program with a user definition of that spelling is compiled and linted (iterated so that the injected name follows the generated numbering).",
+    note="range tables written from the ISA manuals; GNU as stands in for yasm"),
+ "C20": dict(level=EX, design="§4 C20", technique="exhaustive enumeration over a boundary value set and all argument tuples/arities/wrong counts; io.c compiled unmodified into a harness; echo programs compiled by the real pipeline and run natively; AArch64 entry on the emulator",
+    text="print_i64/println_i64 on every boundary value (decimal text, nothing else); every argument tuple over a value set with values beyond 32 bits for arities 0..5 natively (0..7 AArch64 on the emulator); every wrong argument count 0..7 reported without running; exit status = low 8 bits.",
+    note="gcc/glibc of the sandbox"),
  "C13": dict(level=MC, design="§4 C13", technique="bounded-exhaustive enumeration of programs with prints at 0..22 live variables; every emulated execution under a calling-convention model with definedness tracking",
     text="All executions of the linear AxCut families on x86-64 and AArch64 run under the external-call model: alignment at every call (every SP access on AArch64), caller-saved registers / flags / LR / stack below SP become undefined at each print call and may not reach a branch, address, jump target, print argument or the result; callee-saved registers and SP compared with entry sentinels at return.",
     note="register classes from the System V x86-64 and AAPCS64 documents; print runtime modelled as an arbitrary conforming callee"),
